@@ -145,10 +145,15 @@ def uses_tokens(fn):
 def returns_value(fn):
     """Does *fn* have a `return <expr>` with a value other than None?  (A function that never returns a value is a
     procedure: falling off its end is not a missing result.)"""
-    for n in ast.walk(fn):
-        if isinstance(n, ast.Return) and n.value is not None and not (isinstance(n.value, ast.Constant) and n.value.value is None):
-            return True
-    return False
+    vals = [n.value for n in ast.walk(fn) if isinstance(n, ast.Return) and n.value is not None
+            and not (isinstance(n.value, ast.Constant) and n.value.value is None)]
+    if not vals:
+        return False
+    # a predicate (every value it returns is the constant True or False): its result is a truth value, and the None
+    # of falling off the end reads as False wherever it is handed on
+    if all(isinstance(v, ast.Constant) and isinstance(v.value, bool) for v in vals):
+        return False
+    return True
 
 
 def is_skip_helper(fn):
@@ -212,6 +217,16 @@ class Interp:
 
     def fq(self):
         kind, defcls, fn = self.cur[-1]
+        # a private helper is named by the public function it was taken out of (finding keys survive extract-method)
+        mod = self.repo.classes[defcls].module.name if defcls else getattr(fn, "_module", None)
+        if mod is None:
+            for mn, m_ in self.repo.modules.items():
+                if m_.functions.get(fn.name) is fn:
+                    mod = mn
+                    break
+        if mod is not None and fn.name.startswith("_") and not fn.name.startswith("__"):
+            oc, on = self.repo.public_owner(mod, defcls, fn.name)
+            return f"{oc}.{on}" if oc else on
         return f"{defcls}.{fn.name}" if defcls else fn.name
 
     def anchor(self, node):
@@ -1037,9 +1052,6 @@ class Interp:
             selfkind, defcls, fn = target
             self.stats["calls_resolved"] += 1
             tok = uses_tokens(fn)
-            if tok:
-                st = self.t1_check(st, e)
-                st = self.raw_check(st, e, self.where(e))
             params = self.params_of(defcls, fn)
             # positional + keyword arguments -> abstract parameter values
             npos = len(e.args)
@@ -1052,6 +1064,13 @@ class Interp:
             argabs = tuple((amap.get(p) if keepval(amap.get(p)) else "OTHER") for p in params if p != "tokens")
             res = []
             summ = self.summary(selfkind, defcls, fn, st.stream, st.skipped or bool(st.get("$degraded")), argabs)
+            if tok:
+                # a helper that never returns (it throws into the lexer or raises on every path) does not continue the
+                # parse: handing it the token stream is not "parsing goes on" (T1), exactly like tokens.throw itself
+                never_returns = bool(summ) and all(x[0] != "return" for x in summ)
+                if not never_returns:
+                    st = self.t1_check(st, e)
+                st = self.raw_check(st, e, self.where(e))
             for (kind, ret, dlo, dhi, stream, skipped, after_end, exc, origin) in summ:
                 if tok:
                     s2 = replace(st.add(dlo, dhi), stream=stream, skipped=skipped, after_end=st.after_end or after_end)
